@@ -152,7 +152,7 @@ def body(ctx, cfg):
     for j, v in ct.items():
         cj = len(dom_sel[j])
         c05ii.append(implies(v < 0, count_sel * h <= cj * ctx.max_h))
-    out['c05_drilling'] = True if unmet else conj(c05ii)
+    out['c05_drilling'] = conj(c05ii)     # also on the unmet escapes: an evaluated feasible candidate must not be passed over
     # ---- C05(iii): predecessor evaluated and failing (near-square / rectangle / bi-rectangle)
     if kind in ('ns', 'rect', '2d') and not unmet:
         key = search.selection_key
@@ -207,7 +207,9 @@ def policy_on_raise(ctx, cfg, cap, cont, msg):
     first = ctx.field_idx(dom[0])
     too_small = (ctx.excess(first, 'lo') < 0) & (ctx.excess(first, 'hi') < 0)
     last = allowed_indices(dom, cap)[-1]
-    too_large = ctx.excess(ctx.field_idx(dom[last]), 'hi') > 0
+    # "no candidate can meet the limits": the largest allowed one fails and so does every candidate that was evaluated
+    evaluated_fail = [ctx.excess(i, hk) > 0 for (i, hk) in list(ctx.vals) if hk == 'hi']
+    too_large = conj([ctx.excess(ctx.field_idx(dom[last]), 'hi') > 0] + evaluated_fail)
     not_cont = ~cont if isinstance(cont, SymBool) else (not cont)
     return conj([not_cont, disj([too_small, too_large])])
 
@@ -229,6 +231,8 @@ def policy_on_return(ctx, cfg, search, cap, cont, unmet, i, hk, dom):
         res.append(cont if isinstance(cont, SymBool) else bool(cont))
         # at maximum height - for excess curves that do not get better with a shorter borehole (physical; stated)
         res.append(implies(ctx.excess(i, 'lo') >= ctx.excess(i, 'hi'), h == ctx.max_h))
+        # legitimate only if no evaluated candidate meets the limits at maximum height
+        res += [v > 0 for v in search.calculated_temperatures.values()]
     if not unmet:
         res.append(not any('optimal design requires' in m for m in ctx.msgs))
     return conj(res) if res else True
